@@ -1099,7 +1099,13 @@ static size_t ares_calc_query_timeout(const ares_query_t   *query,
    * retry from the last retry */
   rounds = (query->try_count / num_servers);
   if (rounds > 0) {
-    timeplus <<= rounds;
+    /* Saturate instead of overflowing: shifting by the type width or more is
+     * undefined behavior, and large try counts are legal. */
+    if (rounds >= sizeof(timeplus) * 8 || timeplus > (SIZE_MAX >> rounds)) {
+      timeplus = SIZE_MAX;
+    } else {
+      timeplus <<= rounds;
+    }
   }
 
   if (channel->maxtimeout && timeplus > channel->maxtimeout) {
